@@ -20,6 +20,9 @@ def classify(it, a):
         return "argument", f"may alias the caller's object {fmt_atom(a)}"
     if a[0] in ("class", "module", "func"):
         return "global", f"attribute of {a[0]} {a[1]} (shared module state)"
+    if a[0] in ("ext", "extm"):
+        # an object of a library module (dis.opmap, sys.modules, os.environ ...): one per process, shared with every other user of that library
+        return "global", f"object `{a[1] if a[0] == 'ext' else a[1]}` of an imported library (one per process: every later call, and every other user of that library, sees the change)"
     if a[0] == "obj":
         if a[2] == MODULE_CTX:
             return "global", f"module-level object created at {a[1][0]}:{a[1][1]} (shared across calls)"
